@@ -76,6 +76,26 @@ pub fn calibrate() -> Result<usize, String> {
         let r = ref_i64::eval(&p.ast, 0);
         check(r == want, &format!("i64 {} should be {:?}, reference says {:?}", s, want, r))?;
     }
+    // the big-integer rounding oracle of C19
+    {
+        use crate::monitors::c19::correctly_rounded as cr;
+        let up = |x: f64| f64::from_bits(x.to_bits() + 1);
+        check(cr("9007199254740993", 9007199254740992.0) && !cr("9007199254740993", 9007199254740994.0), "tie at 2^53+1 goes to even")?;
+        check(cr("9007199254740995", 9007199254740996.0) && !cr("9007199254740995", 9007199254740994.0), "tie at 2^53+3 goes to even")?;
+        check(cr("0.1", 0.1) && !cr("0.1", up(0.1)) && !cr("0.1", f64::from_bits(0.1f64.to_bits() - 1)), "0.1 has one nearest double")?;
+        check(cr("0", 0.0) && !cr("0", 5e-324) && cr(".5", 0.5) && cr("5.", 5.0), "simple literals")?;
+        let max = format!("{}", f64::MAX);
+        check(cr(&max, f64::MAX) && !cr(&max, f64::INFINITY), "MAX reads as MAX")?;
+        check(cr(&format!("1{}", "0".repeat(309)), f64::INFINITY) && !cr(&format!("1{}", "0".repeat(309)), f64::MAX), "1e309 reads as inf")?;
+        check(cr(&format!("0.{}1", "0".repeat(400)), 0.0), "1e-401 reads as 0")?;
+    }
+    // C18 decoder
+    {
+        use crate::monitors::c18::expected_from_f64 as ex;
+        check(matches!(ex(5.0), Val::NI(5)) && matches!(ex(-0.0), Val::NI(0)) && matches!(ex(2.5), Val::NF(_)), "Number::from expectations")?;
+        check(matches!(ex(9223372036854775808.0), Val::NF(_)) && matches!(ex(-9223372036854775808.0), Val::NI(i64::MIN)) && matches!(ex(9223372036854774784.0), Val::NI(9223372036854774784)), "Number::from at 2^63")?;
+        check(matches!(ex(f64::NAN), Val::NF(_)) && matches!(ex(f64::INFINITY), Val::NF(_)) && matches!(ex(5e-324), Val::NF(_)), "Number::from non-finite / subnormal")?;
+    }
     // White_Space table
     for c in WHITE_SPACE {
         check(c.is_whitespace(), &format!("U+{:04X} is White_Space", c as u32))?;
